@@ -1,12 +1,16 @@
 """C12 — protocol objects survive serialisation and parsing unchanged.
 
-Three kinds of case:
+Kinds of case:
   rt    a random INSTANCE of a live class (built with the live constructor / setattr) is serialised with
         to_string(), the bytes are read by xml.etree (independent reader) and by the library
         (<element>_from_string / create_class_from_xml_string), serialised again, parsed again, serialised again;
   doc   a random DOCUMENT for a class, rendered by this file (other prefixes, default namespace, attribute
         order, quoting, character references, CDATA, comments, PIs, tails), is parsed by the library, serialised,
         parsed, serialised;
+  rtb   (round 5) an AttributeValue instance built along a RECIPE (constructor keywords, then public calls): C12/Build.v
+        restates what is built; the round trip is demanded without the parse-fixpoint guard;
+  lite  (round 5) only when the class-table translator fails closed: table-free implementation-only round trips with a
+        foreign child named like an element another live class registers (verdicts through C12/Lite.v);
   impl  checks on the implementation only (the truth is in the XML parser): entity-declaring documents are
         refused, malformed documents are refused, deep documents are refused or read completely, typed attribute
         values whose conversion the model does not restate (float, double, date) are stable.
@@ -22,10 +26,10 @@ from harness.common import cq_str
 
 PID = "C12"
 PARALLEL = 6
-IMPORTS = "From Verif Require Import Base.Xml Base.ClassTable C12.Model C12.Corr.\nFrom VerifGen Require Import ClassTables C12Vocab."
+IMPORTS = "From Verif Require Import Base.Xml Base.ClassTable C12.Model C12.Build C12.Corr.\nFrom VerifGen Require Import ClassTables C12Vocab."
 CASE_TYPE = "C12.Corr.case"
 RUNNER = "C12.Corr.run"
-FINDING_CLASSES = {1: "C12-F1", 2: "C12-F2", 3: "C12-F3", 4: "C12-F4"}
+FINDING_CLASSES = {1: "C12-F1", 2: "C12-F2", 3: "C12-F3", 4: "C12-F4", 5: "C12-F5", 6: "C12-F6", 7: "C12-F7", 8: "C12-F8"}
 RULE = ("every class of the live table (core: saml, samlp, md, xmldsig, xmlenc, extension.*, soapenv, ecp, paos, samlec; "
         "extra: ws.*, authn_context.*) x seeded random instances (minimal / random / with foreign elements, foreign "
         "attributes and hostile characters / every schema attribute present with the EMPTY string; attribute values, "
@@ -45,13 +49,26 @@ RULE = ("every class of the live table (core: saml, samlp, md, xmldsig, xmlenc, 
         "the namespace of the carrying element, another live namespace, a vendor namespace, a namespace one character / "
         "case away, xml:} x {exact, lower, upper, first letter swapped, suffixed, unrelated local name}), next to the "
         "schema attributes themselves, also one level down and inside foreign elements. "
+        "Round 5: HOW an AttributeValue instance is built (recipes, C12/Build.v): the constructor with its three keywords, "
+        "complete over the Python TYPE and boundary values of text (absent / None / '' / ' ' / str / bytes / 0 / int / False / "
+        "True / 0.0 / float / nan) x the extension_attributes argument x extension elements (none / empty list / one), "
+        "then public calls: set_text(v) and .text = v for every value on a fresh instance, set_type(t) + set_text for every "
+        "type spelling x fitting and unfitting texts, seeded call patterns [xa* type? text xa*] / [text text] / [type] / "
+        "[clear_type text]; the round trip of what was built is demanded WITHOUT the parse-fixpoint guard. "
+        "Foreign children / attributes named like an element / attribute ANOTHER live class registers (live_names: relatives "
+        "= classes sharing a base class, same-namespace tags, other live namespaces) for every core class with relatives "
+        "(instance + document) and a quarter of the others; which children a class knows is judged by the XML Schema "
+        "files (Xsd.xsd_kept_b). When the class-table translator fails closed, a table-free implementation-only battery "
+        "(every core class x names it registers beyond its schema type, relatives' names, live tags) still names a failing input. "
         "non-trivial = distinct (kind, class, outcome, shape features: foreign elements/attributes, repeated singleton, "
         "character classes)")
 TRUSTED = ["independent reader: xml.etree.ElementTree (expat) applied to the library's output",
            "document renderer and object/tree abstraction in harness/c12.py (renderer self-checked against the reader)",
            "translator harness/classtables.py (fail-closed)", "sparse->dense object adaptor C12.Corr.dense",
            "schema order oracle: src/saml2/data/schemas/*.xsd flattened to ranks by harness/c12.py (Schemas / merge_ranks; "
-           "over-approximates: repeatable groups and names met twice share a rank)",
+           "over-approximates: repeatable groups and names met twice share a rank); the same ranks say which child names an "
+           "element HAS (Xsd.xsd_kept_b, root level; hand-reviewed exceptions Xsd.xsd_extra_allowed, mirrored in "
+           "harness/c12.py XSD_EXTRA_ALLOWED for the table-free battery)",
            "source-to-Gallina translator v2 harness/py2coq2.py + coq/theories/Base/Py2.v (its trusted base: "
            "notes/translator_v2.md; value semantics, no aliasing) for the functions re-translated on every run: "
            "saml2/__init__.py create_class_from_element_tree, ExtensionContainer._convert_element_attribute_to_member, "
@@ -60,7 +77,11 @@ TRUSTED = ["independent reader: xml.etree.ElementTree (expat) applied to the lib
            "AttributeValueBase.set_type, AttributeValueBase.get_type (theorems c12_source2_*; encodings enc_* / clark in "
            "C12/Source2.v; external calls - constructors, methods acting on another object, self.__class__.c_attributes - "
            "are universally quantified extra arguments)"]
-ASSUMPTIONS = ["character data before the first child is the element's text; tails (character data after a child) are "
+ASSUMPTIONS = ["recipes (C12/Build.v): str(float) is carried as data, float(str)/date conversions are not restated (model "
+               "TUnmodelled: the round trip of such an instance is still evaluated on the implementation); str.strip() is "
+               "restated for ASCII white space (seeded texts avoid outer non-ASCII white space); an int / bool / float kept "
+               "as it is by xs:anyType is outside the property's domain (text is not a string): only model agreement is checked",
+               "character data before the first child is the element's text; tails (character data after a child) are "
                "not read by the code and not part of the tree model",
                "what ElementTree.tostring writes and expat reads back is the identity on trees except: keys spelled "
                "xmlns:* become namespace declarations, raw CR in text becomes LF (model: wire); checked on every case "
@@ -85,11 +106,12 @@ def regenerate_tables(ctx):
     global _TABLE_ERROR
     try:
         info = classtables.write()
-    except Exception as e:  # fail closed: an unusable table makes the proof build fail (and no case is generated)
+    except Exception as e:  # fail closed: an unusable table makes the proof build fail (and no modelled case is generated)
         _TABLE_ERROR = "%s: %s" % (type(e).__name__, e)
         common.write_if_changed(classtables.OUT, "(* GENERATION FAILED: %s *)\nDefinition generation_failed : False := I.\n"
                                 % _TABLE_ERROR.replace("*)", "* )"))
-        return {"obligations": 1, "discharged": 0, "error": _TABLE_ERROR}
+        enter_lite()            # ... but the table-free battery still looks for a concrete failing input
+        return {"obligations": 1, "discharged": 0, "error": _TABLE_ERROR, "fallback": "table-free battery (C12/Lite.v)"}
     # the case files need C12/Corr.vo against the table just written, also when a table obligation (C12/Live.v)
     # fails afterwards: then the correspondence still runs and names the failing input
     info["vocabulary"] = write_vocab()
@@ -109,6 +131,143 @@ def regenerate_tables(ctx):
                  "source2": src2, "untranslatable": list(src2["untranslatable"]),
                  "changed": bool(info.get("changed")) or bool(src2.get("changed"))})
     return info
+
+
+# ---------------------------------------------------------------------------- table-free fallback (round 5)
+# The class-table translator fails closed: when a live table has a shape it cannot stand for (a child registered for
+# a member the instances do not have, say) there is no table, no model and - until round 5 - no case at all: the
+# alarm was "theorem broken, no failing input found".  The battery below needs no table: for every core class it
+# builds an instance / renders a document that carries ONE foreign child named like an element another live class
+# registers (relatives first: a shared or wrongly copied child table brings exactly those names along) and checks
+# on the implementation that the child surfaces in extension_elements and survives to_string() byte-identically.
+# Which names are foreign is said by the schema files where they declare the element (else by the class's own
+# c_children).  Verdicts go through C12/Lite.v.
+_LITE = False
+# mirror of Xsd.xsd_extra_allowed (registered children the schema files do not declare; reviewed by hand)
+XSD_EXTRA_ALLOWED = {
+    ("http://www.w3.org/2001/04/xmlenc#", "EncryptedKey"): ["saml2.xmldsig.KeyInfoType_", "saml2.xmldsig.KeyInfo",
+                                                           "saml2.xmlenc.OriginatorKeyInfo", "saml2.xmlenc.RecipientKeyInfo"],
+    ("http://www.w3.org/2001/04/xmlenc#", "KA_Nonce"): ["saml2.xmlenc.AgreementMethodType_", "saml2.xmlenc.AgreementMethod"],
+    ("urn:oasis:names:tc:SAML:2.0:assertion", "AttributeValue"): [
+        "saml2.extension.requested_attributes.RequestedAttributeType_", "saml2.extension.requested_attributes.RequestedAttribute"],
+}
+for _n in ("faultcode", "faultstring", "faultactor", "detail"):
+    XSD_EXTRA_ALLOWED[("http://schemas.xmlsoap.org/soap/envelope/", _n)] = ["saml2.schema.soapenv.Fault_", "saml2.schema.soapenv.Fault"]
+
+
+def enter_lite():
+    global IMPORTS, CASE_TYPE, RUNNER, _LITE
+    _LITE = True
+    IMPORTS = "From Verif Require Import C12.Lite."
+    CASE_TYPE = "C12.Lite.lcase"
+    RUNNER = "C12.Lite.lrun"
+    common.coq_make(["theories/C12/Lite.vo"], jobs=2)
+
+
+def lite_classes():
+    import importlib
+    import inspect
+
+    from saml2 import SamlBase
+
+    out = []
+    for mn in classtables.expand(classtables.CORE_MODULES):
+        mod = importlib.import_module(mn)
+        for n, c in vars(mod).items():
+            if inspect.isclass(c) and issubclass(c, SamlBase) and c.__module__ == mn and n == c.__name__ \
+                    and isinstance(c.c_tag, str) and c.c_tag and isinstance(c.c_namespace, str) and c.c_namespace:
+                out.append(c)
+    return out
+
+
+def _split(name):
+    return tuple(unclark(name))
+
+
+def lite_cases(rng, per_class=3):
+    classes = lite_classes()
+    roots = {b for c in classes for b in c.__mro__ if b.__name__ in ("SamlBase", "ExtensionContainer", "AttributeValueBase", "object")}
+    by_base = {}
+    for c in classes:
+        for b in set(c.__mro__) - roots:
+            by_base.setdefault(b, []).append(c)
+    S = Schemas(os.path.join(env.SRC, "saml2", "data", "schemas"))
+    tags = sorted({(c.c_namespace, c.c_tag) for c in classes})
+    cases = []
+    for c in classes:
+        if getattr(c, "harvest_element_tree", None) is not None and c.harvest_element_tree.__qualname__.startswith("AttributeValueBase"):
+            continue
+        name = "%s.%s" % (c.__module__, c.__name__)
+        own = {_split(k) for k in c.c_children if isinstance(k, str)}
+        try:
+            ms = S.models((c.c_namespace, c.c_tag))
+        except Unrankable:
+            ms = []
+        model = set(ms[0]) if ms and all(m == ms[0] for m in ms) and ms[0] else None
+
+        def foreign(q):
+            if model is not None:
+                return q not in model and name not in XSD_EXTRA_ALLOWED.get(q, ())
+            return q not in own
+
+        rel = []
+        for b in set(c.__mro__) - roots:
+            for c2 in by_base[b]:
+                for k in c2.c_children:
+                    q = _split(k) if isinstance(k, str) else None
+                    if q is not None and q not in rel and foreign(q):
+                        rel.append(q)
+        rng.shuffle(rel)
+        # first of all: what the class REGISTERS although the schema does not give it to the element
+        cand = sorted(q for q in own if foreign(q))
+        cand += [q for q in rel if q not in cand][:per_class]
+        pool = [q for q in tags if foreign(q) and q not in cand]
+        same = [q for q in pool if q[0] == c.c_namespace]
+        if same:
+            cand.append(rng.choice(same))
+        if len(cand) < per_class + 1 and pool:
+            cand.append(rng.choice(pool))
+        for q in cand:
+            cases.append({"kind": "lite", "cls": name, "name": list(q), "how": rng.choice(["instance", "document"]),
+                          "relative": q in rel})
+    return cases
+
+
+def observe_lite(case):
+    import importlib
+
+    import saml2
+
+    mn, cn = case["cls"].rsplit(".", 1)
+    cls = getattr(importlib.import_module(mn), cn)
+    ns, tag = case["name"]
+    try:
+        if case["how"] == "instance":
+            inst = cls()
+            inst.extension_elements = [saml2.ExtensionElement(tag, namespace=ns, text="kept", children=[
+                saml2.ExtensionElement("inner", namespace=FOREIGN_NS[0], attributes={"a": "1"})])]
+            s1 = inst.to_string()
+            if b"kept" not in s1:
+                return {"ok": False, "detail": "the extension element is not serialised"}
+        else:
+            s1 = ('<r:%s xmlns:r="%s"><q:%s xmlns:q="%s">kept<i:inner xmlns:i="%s" a="1"/></q:%s></r:%s>'
+                  % (cls.c_tag, cls.c_namespace, tag, ns, FOREIGN_NS[0], tag, cls.c_tag)).encode("utf-8")
+        o = saml2.create_class_from_xml_string(cls, s1)
+        if o is None:
+            return {"ok": False, "detail": "parse gives None"}
+        got = [[e.namespace, e.tag] for e in o.extension_elements]
+        if got != [[ns, tag]]:
+            return {"ok": False, "detail": "unknown child did not surface as an extension element: %r" % (got,)}
+        s2 = o.to_string()
+        if b"kept" not in s2:
+            return {"ok": False, "detail": "unknown child dropped by to_string()"}
+        # (s2 == s1 is not demanded of a bare cls(): parsing fills in schema defaults such as NameFormat)
+        o2 = saml2.create_class_from_xml_string(cls, s2)
+        if o2 is None or o2.to_string() != s2:
+            return {"ok": False, "detail": "not stable"}
+        return {"ok": True, "detail": "kept"}
+    except Exception as e:  # noqa: BLE001
+        return {"ok": False, "detail": "%s: %s" % (type(e).__name__, e)}
 
 
 # ---------------------------------------------------------------------------- source tie (translator v2)
@@ -885,6 +1044,94 @@ def build(spec):
     return inst
 
 
+# ---------------------------------------------------------------------------- recipes (round 5)
+# HOW an AttributeValue instance comes to be.  Until round 5 every AttributeValue instance of the correspondence
+# was built in one way (cls(extension_elements=..); set_type; set_text) and "is this an instance the property
+# speaks about" was judged by the fixpoint of the PARSING side; the constructor's own keywords (text=,
+# extension_attributes=), the Python TYPE of the value (None / str / bytes / int / bool / float) and its boundary
+# values ("" vs None vs 0 vs False), and the order of the public calls were never varied.  A recipe is the
+# constructor call followed by public calls; C12/Build.v restates what it builds, Corr.RTB demands the round trip
+# of the result without guard.
+#   value:  ["absent"] | ["none"] | ["str", s] | ["bytes", s] | ["int", n] | ["bool", b] | ["float", repr]
+#   recipe: {"text": value, "ext": [ee] | None | "empty", "arg": [[name, v]] | None,
+#            "ops": [["text", value, "call"|"attr"] | ["type", t] | ["clear"] | ["xa", name, v]]}
+def py_value(v):
+    k = v[0]
+    if k in ("absent", "none"):
+        return None
+    if k == "str":
+        return v[1]
+    if k == "bytes":
+        return v[1].encode("utf-8")
+    if k == "int":
+        return int(v[1])
+    if k == "bool":
+        return bool(v[1])
+    if k == "float":
+        return float(v[1])
+    raise ValueError(k)
+
+
+def build_recipe(idx, rc):
+    cls = tab().classes[idx].cls
+    kw = {}
+    if rc["text"][0] != "absent":
+        kw["text"] = py_value(rc["text"])
+    if rc["ext"] == "empty":
+        kw["extension_elements"] = []
+    elif rc["ext"]:
+        kw["extension_elements"] = [build_ee(e) for e in rc["ext"]]
+    if rc["arg"] is not None:
+        kw["extension_attributes"] = {clark(q): v for q, v in rc["arg"]}
+    inst = cls(**kw)
+    for op in rc["ops"]:
+        if op[0] == "text":
+            if op[2] == "attr":
+                inst.text = py_value(op[1])
+            else:
+                inst.set_text(py_value(op[1]))
+        elif op[0] == "type":
+            inst.set_type(op[1])
+        elif op[0] == "clear":
+            inst.clear_type()
+        else:
+            inst.extension_attributes[clark(op[1])] = op[2]
+    return inst
+
+
+def cq_value(v):
+    k = v[0]
+    if k in ("absent", "none"):
+        return "VNone"
+    if k == "str":
+        return "(VStr %s)" % cq_s(v[1])
+    if k == "bytes":
+        return "(VBytes %s)" % cq_s(v[1])
+    if k == "int":
+        n = int(v[1])
+        return "(VInt %s %s)" % (cq_bool(n < 0), cq_s(str(abs(n))))
+    if k == "bool":
+        return "(VBool %s)" % cq_bool(v[1])
+    f = float(v[1])
+    return "(VFloat %s %s)" % (cq_bool(f == 0.0), cq_s(str(f)))   # str(float): trusted, the model carries it as given
+
+
+def cq_recipe(rc):
+    ops = []
+    for op in rc["ops"]:
+        if op[0] == "text":
+            ops.append("OSetText %s" % cq_value(op[1]))
+        elif op[0] == "type":
+            ops.append("OSetType %s" % cq_s(op[1]))
+        elif op[0] == "clear":
+            ops.append("OClearType")
+        else:
+            ops.append("OXAttr %s %s" % (cq_q(op[1]), cq_s(op[2])))
+    ext = rc["ext"] if isinstance(rc["ext"], list) else []
+    return "(Recipe %s [%s] %s [%s])" % (cq_value(rc["text"]), "; ".join(cq_ee(e) for e in ext),
+                                         cq_attrs(rc["arg"] or []), "; ".join(ops))
+
+
 # ---------------------------------------------------------------------------- abstraction
 class AbstractionError(Exception):
     pass
@@ -1396,7 +1643,7 @@ def observe_impl(case):
 # ---------------------------------------------------------------------------- generate / observe
 def generate(ctx):
     if _TABLE_ERROR is not None:
-        return []
+        return lite_cases(ctx.rng, 6 if ctx.thorough else 3)
     rng = ctx.rng
     t = tab()
     cases = []
@@ -1536,6 +1783,8 @@ def generate_round2(ctx, cases):
                 what, tpl = rng.choice(ENTITY_DOCS)
                 entity(i, what, tpl, rand_form(rng))
     generate_round3(ctx, cases, random.Random(rng.getrandbits(64)))
+    generate_round5(ctx, cases, random.Random(rng.getrandbits(64)))
+    generate_live(ctx, cases, random.Random(rng.getrandbits(64)))
 
 
 def generate_round3(ctx, cases, rng):
@@ -1560,6 +1809,270 @@ def generate_round3(ctx, cases, rng):
                 cases.append(case)
 
 
+# ---------------------------------------------------------------------------- live names (round 5)
+# Foreign children / attributes whose expanded name is REGISTERED BY ANOTHER LIVE CLASS: a child or attribute of a
+# relative (a class that shares a base class with this one - the generated classes copy their tables from the
+# base class, so a relative's name is what a shared or wrongly copied table brings along), the tag of a class of the
+# same namespace, the tag of a class of another live namespace.  alike_names() (round 3) only walks the
+# neighbourhood of the class's OWN names; foreign_name() only draws from made-up pools.
+_REL = None
+
+
+def relatives():
+    """[set of class indexes] per class: the classes that share a base class other than the common roots."""
+    global _REL
+    if _REL is None:
+        t = tab()
+        roots = set()
+        for r in t.classes:
+            for b in r.cls.__mro__:
+                if b.__name__ in ("SamlBase", "ExtensionContainer", "AttributeValueBase", "object") and b not in t.index:
+                    roots.add(b)
+        bases = [set(r.cls.__mro__) - roots for r in t.classes]
+        by_base = {}
+        for i, bs in enumerate(bases):
+            for b in bs:
+                by_base.setdefault(b, set()).add(i)
+        _REL = [set().union(*[by_base[b] for b in bs]) - {i} for i, bs in enumerate(bases)]
+    return _REL
+
+
+def live_names(rng, i, element):
+    """[(expanded name, kind, class index of the element's content | None)], shuffled; relatives first."""
+    t = tab()
+    rec = t.classes[i]
+    known = {tuple(q) for q, _m, _k, _l in rec.children} if element else {tuple(q) for q, _m, _t, _r in rec.attributes}
+    out, seen = [], set(known)
+    if rec.kind == "attrvalue" and not element:
+        seen |= set(AV_MANAGED)
+
+    def add(q, kind, k):
+        q = tuple(q)
+        if q not in seen and not (rec.kind == "attrvalue" and q[0] in (XSI, XS)):
+            seen.add(q)
+            out.append((q, kind, k))
+
+    rel = sorted(relatives()[i])
+    rng.shuffle(rel)
+    for j in rel:
+        r2 = t.classes[j]
+        if element:
+            for q, _m, k, _l in r2.children:
+                add(q, "relative", k)
+        else:
+            for q, _m, _t, _r in r2.attributes:
+                add(q, "relative", None)
+    n_rel = len(out)
+    others = list(range(len(t.classes)))
+    rng.shuffle(others)
+    same = other = 0
+    for j in others:
+        r2 = t.classes[j]
+        if not r2.core:
+            continue
+        if element:
+            if r2.tag[0] == rec.tag[0] and same < 3:
+                n = len(out)
+                add(r2.tag, "same-ns", j)
+                same += len(out) - n
+            elif r2.tag[0] != rec.tag[0] and other < 2:
+                n = len(out)
+                add(r2.tag, "other-ns", j)
+                other += len(out) - n
+        else:
+            for q, _m, _t, _r in r2.attributes[:2]:
+                if same + other < 4:
+                    n = len(out)
+                    add(q, "same-ns" if r2.tag[0] == rec.tag[0] else "other-ns", None)
+                    same += len(out) - n
+        if same >= 3 and other >= 2:
+            break
+    head, tail = out[:n_rel], out[n_rel:]
+    rng.shuffle(head)
+    rng.shuffle(tail)
+    return head + tail
+
+
+def ee_of_doc(node):
+    return {"ns": node["g"][0], "tag": node["g"][1], "a": node["a"], "k": [ee_of_doc(k) for k in node["k"]],
+            "x": node["x"] or None}
+
+
+def live_tree(rng, q, k):
+    """A child element named q with the content an element of class k would have (the stray member such a child is
+    stored in must be able to take it); bare when the name has no class."""
+    if k is None:
+        return {"g": list(q), "a": [], "x": rng.choice(["", "kept"]), "k": []}
+    node = gen_doc(rng, k, 1, [4], hostile=False)
+    node["g"] = list(q)
+    return node
+
+
+def pick_live(rng, i, element, n):
+    names = live_names(rng, i, element)
+    rel = [x for x in names if x[1] == "relative"]
+    rest = [x for x in names if x[1] != "relative"]
+    k = min(len(rel), max(1, (n + 1) // 2))
+    got = rel[:k] + rest[:max(0, n - k)]
+    rng.shuffle(got)
+    return got
+
+
+def gen_live_spec(rng, i, kinds):
+    rec = tab().classes[i]
+    if rec.kind == "attrvalue":
+        spec = gen_av_spec(rng, i, "rand", False)
+        spec["xa"], spec["xa_first"] = [], True
+        if not spec["x"]:
+            spec["e"] = spec["e"] or [rand_ee(rng, 0, False, rec)]
+    else:
+        spec = gen_spec(rng, i, 0, "rand", [99])
+        dflt = {m for m, _v in rec.parse_defaults}
+        spec["a"] = [[m, "v-" + m] for _n, m, _t, req in rec.attributes if req or m in dflt or rng.random() < 0.5]
+        spec["xa"], spec["e"], spec["k"] = [], [], []
+        if spec["x"] == "":
+            spec["x"] = None
+    if not (rec.kind == "attrvalue" and spec["x"]):
+        for q, kind, k in pick_live(rng, i, True, rng.choice([1, 2, 2])):
+            spec["e"].append(ee_of_doc(live_tree(rng, q, k)))
+            kinds.append("elem " + kind)
+    for q, kind, _k in pick_live(rng, i, False, rng.choice([1, 2])):
+        spec["xa"].append([list(q), "x-" + rand_text(rng, False)])
+        kinds.append("attr " + kind)
+    return spec
+
+
+def gen_live_doc(rng, i, kinds):
+    rec = tab().classes[i]
+    node = gen_doc(rng, i, 1, [6], hostile=False)
+    kids = list(node["k"])
+    if not (rec.kind == "attrvalue" and node["x"].strip()):
+        for q, kind, k in pick_live(rng, i, True, rng.choice([1, 2, 2])):
+            kids.insert(rng.randrange(len(kids) + 1), live_tree(rng, q, k))
+            kinds.append("elem " + kind)
+    node["k"] = kids
+    have = [a[0] for a in node["a"]]
+    for q, kind, _k in pick_live(rng, i, False, rng.choice([1, 2])):
+        if list(q) not in have:
+            node["a"].insert(rng.randrange(len(node["a"]) + 1), [list(q), "x-" + rand_text(rng, False)])
+            kinds.append("attr " + kind)
+    return node
+
+
+R5_VALUES = [["absent"], ["none"], ["str", ""], ["str", " "], ["str", "abc"], ["str", " a b "], ["str", "\n"], ["str", "0"],
+             ["str", "007"], ["str", "true"], ["str", "<&>\"'"], ["str", "\u00e9"], ["str", "\U0001f600"], ["bytes", ""],
+             ["bytes", "by"], ["bytes", "\u00e9"], ["int", "0"], ["int", "7"], ["int", "-12"], ["int", "1" + "0" * 30],
+             ["bool", False], ["bool", True], ["float", "0.0"], ["float", "-0.0"], ["float", "1.5"], ["float", "1e+22"],
+             ["float", "nan"]]
+R5_ARGS = [None, [[[XSI, "type"], "xs:string"]], [[[XSI, "type"], "xs:integer"]], [[[None, "foo"], "bar"]],
+           [[[XSI, "nil"], "true"]], [[[XSI, "type"], "xsd:string"], [[FOREIGN_NS[0], "lang"], ""]]]
+R5_TYPES = ["xs:string", "xs:integer", "xs:boolean", "xs:anyType", "xs:base64Binary", "xsd:string", "xsd:integer", "my:type",
+            "string", "integer", "boolean", "plain", "", "xs:float", "xs:"]
+R5_TYPED_TEXTS = {"integer": ["7", " 42 ", "abc", ""], "boolean": ["TRUE", "yes", ""], "float": ["1.5"]}
+
+
+def r5_text(rng):
+    """Hostile text whose outer characters are not NON-ASCII white space (str.strip() is restated for ASCII only)."""
+    for _ in range(20):
+        x = rand_text(rng, hostile=True)
+        if x.strip() == x.strip(" \t\n\r\x0b\x0c"):
+            return x
+    return "abc"
+
+
+def generate_round5(ctx, cases, rng):
+    """Dimension added after seeded change C12-8 was missed: HOW an AttributeValue instance is built (recipes, see
+    build_recipe).  Own PRNG, drawn after everything else: the earlier cases are what they were.
+      (a) the constructor alone, complete: text value (None / str / bytes / int / bool / float, boundary values of
+          each) x extension_attributes argument, without extension elements; x extension elements (none given,
+          an empty list, one element) with a seeded argument;
+      (b) a fresh instance, then set_text(v) / .text = v for every value, both spellings;
+      (c) a fresh instance, set_type(t), set_text(v): every type spelling x texts that fit / do not fit the type;
+      (d) seeded recipes: any constructor call followed by one of the call patterns
+          [xa* type? text xa*] / [text text] / [type] / [xa] / [clear_type text] / [text clear_type text]."""
+    t = tab()
+
+    def ee1():
+        return rand_ee(rng, 1, False, t.classes[i])
+
+    def xa1():
+        q = foreign_name(rng, t.classes[i], element=False)
+        return ["xa", list(q), rand_value(rng, False)]
+
+    def ctor(v, ext, arg):
+        return {"text": v, "ext": ext, "arg": arg, "ops": []}
+
+    def add(rc, why):
+        cases.append({"kind": "rtb", "c": i, "recipe": rc, "why": why})
+
+    for i, r in enumerate(t.classes):
+        if r.kind != "attrvalue":
+            continue
+        for v in R5_VALUES:                                             # (a)
+            for arg in R5_ARGS:
+                add(ctor(v, None, arg), "ctor")
+            add(ctor(v, "empty", rng.choice(R5_ARGS)), "ctor")
+            for _ in range(2):
+                add(ctor(v, [ee1()], rng.choice(R5_ARGS)), "ctor+ext")
+        for v in R5_VALUES[1:]:                                         # (b)
+            for how in ("call", "attr"):
+                rc = ctor(["absent"], None, None)
+                rc["ops"] = [["text", v, how]]
+                add(rc, "fresh;text")
+        for typ in R5_TYPES:                                            # (c)
+            base = typ.split(":")[-1]
+            for x in R5_TYPED_TEXTS.get(base, ["abc", ""]) + [None]:
+                rc = ctor(["absent"], None, None)
+                rc["ops"] = [["type", typ]] + ([["text", ["str", x], rng.choice(["call", "attr"])]] if x is not None else [])
+                add(rc, "fresh;type;text")
+            rc = ctor(["absent"], None, None)
+            rc["ops"] = [["type", typ], ["text", rng.choice([["int", "7"], ["bool", True], ["none"], ["float", "1.5"]]), "call"]]
+            add(rc, "fresh;type;text")
+        for _ in range(600 if ctx.thorough else 140):                   # (d)
+            rc = ctor(rng.choice(R5_VALUES), rng.choice([None, None, "empty", [ee1()]]), rng.choice(R5_ARGS))
+            pat = rng.choice(["xts", "xts", "tsx", "sx", "ss", "t", "x", "s", "cs", "c", "scs"])
+            ops = []
+            for ch in pat:
+                if ch == "x":
+                    ops += [xa1() for _ in range(rng.randint(1, 2))]
+                elif ch == "t":
+                    ops.append(["type", rng.choice(R5_TYPES)])
+                elif ch == "c":
+                    ops.append(["clear"])
+                else:
+                    v = rng.choice(R5_VALUES[1:]) if rng.random() < 0.6 else ["str", r5_text(rng)]
+                    ops.append(["text", v, rng.choice(["call", "attr"])])
+            rc["ops"] = ops
+            add(rc, "seeded:" + pat)
+
+
+def generate_live(ctx, cases, rng):
+    """Dimension added after seeded change C12-7 (detected only by the fail-closed table translator, without a failing
+    input): foreign children / attributes that carry a name REGISTERED BY ANOTHER LIVE CLASS (live_names): every core
+    class that has relatives with names of their own (one instance + one independently rendered document), a quarter
+    of the other core classes with children or a content model, a few of the extras.  Which children a class knows
+    is judged by the schema files (Corr.kept / Xsd.xsd_kept_b), not by the table."""
+    t = tab()
+    ranked = xsd_ranks()[0]
+    for i, r in enumerate(t.classes):
+        has_rel = any(x[1] == "relative" for x in live_names(rng, i, True) + live_names(rng, i, False))
+        if r.core and has_rel:
+            reps = 3 if ctx.thorough else 1
+        elif ctx.thorough or (r.core and (r.children or i in ranked) and rng.random() < 0.25) or rng.random() < 0.02:
+            reps = 1
+        else:
+            continue
+        for _ in range(reps):
+            kinds = []
+            cases.append({"kind": "rt", "c": i, "mode": "live", "spec": gen_live_spec(rng, i, kinds), "alike": kinds})
+            kinds = []
+            case = {"kind": "doc", "c": i, "tree": gen_live_doc(rng, i, kinds), "rseed": rng.getrandbits(32), "root": "own",
+                    "alike": kinds, "live": True}
+            if rng.random() < 0.3:
+                case["form"] = rand_form(rng)
+            cases.append(case)
+
+
 def observe(case):
     try:
         return _observe(case)
@@ -1574,9 +2087,25 @@ def observe(case):
 
 
 def _observe(case):
+    if case["kind"] == "lite":
+        return observe_lite(case)
     idx = case["c"]
     if case["kind"] == "impl":
         return observe_impl(case)
+    if case["kind"] == "rtb":
+        try:
+            inst = build_recipe(idx, case["recipe"])
+        except ValueError:                        # AttributeValueBase.set_text refuses the value: part of the model
+            return {"braise": True}
+        if inst.text is not None and not isinstance(inst.text, str):
+            return {"nonstr": repr(inst.text)}            # xs:anyType keeps the value as it is: to_string() would raise
+        o_in = abs_obj(inst)
+        s1 = to_string(inst, "an instance built along a recipe")
+        t1 = read(s1)
+        r1 = lib_parse(idx, s1)
+        ch = chain(idx, r1)
+        return {"o_in": o_in, "t1": t1, "r1": pres(r1), "t2": ch["t2"], "same12": ch["s2"] == s1, "r2": ch["r2"],
+                "same23": ch["same23"]}
     if case["kind"] == "rt":
         try:
             inst = build(case["spec"])
@@ -1675,6 +2204,8 @@ def cq_bool(b):
 
 
 def coq_case(case, obs):
+    if case["kind"] == "lite":      # (a replay of a table-free case on a tree whose table translates: the ordinary runner)
+        return "(%s %s)" % ("LIMPL" if _LITE else "IMPL", cq_bool(obs.get("ok") is True))
     if "error" in obs:
         return "(IMPL false)"
     if "skip" in obs:
@@ -1683,9 +2214,17 @@ def coq_case(case, obs):
         if case["what"] == "av-root-xs":
             return "(IMPLF 4 %s)" % cq_bool(obs["ok"])
         return "(IMPL %s)" % cq_bool(obs["ok"])
+    if case["kind"] == "rtb" and obs.get("braise"):
+        return "(BRAISE %d%%N %s)" % (case["c"], cq_recipe(case["recipe"]))
+    if case["kind"] == "rtb" and "nonstr" in obs:
+        return "(BNONSTR %d%%N %s)" % (case["c"], cq_recipe(case["recipe"]))
     sh = Share()
     t2 = "None" if obs["t2"] is None else "(Some %s)" % sh.use(cq_tree(obs["t2"]))
-    if case["kind"] == "rt":
+    if case["kind"] == "rtb":
+        body = "RTB %d%%N %s %s %s %s %s %s %s %s" % (
+            case["c"], cq_recipe(case["recipe"]), sh.use(cq_sobj(obs["o_in"])), sh.use(cq_tree(obs["t1"])),
+            cq_pres(obs["r1"], sh), t2, cq_bool(obs["same12"]), cq_pres(obs["r2"], sh), cq_bool(obs["same23"]))
+    elif case["kind"] == "rt":
         body = "RT %d%%N %s %s %s %s %s %s %s" % (
             case["c"], sh.use(cq_sobj(obs["o_in"])), sh.use(cq_tree(obs["t1"])), cq_pres(obs["r1"], sh), t2,
             cq_bool(obs["same12"]), cq_pres(obs["r2"], sh), cq_bool(obs["same23"]))
@@ -1696,6 +2235,8 @@ def coq_case(case, obs):
 
 
 def explain_term(term):
+    if _LITE:
+        return term
     return "C12.Corr.explain_live %s" % term
 
 
@@ -1743,6 +2284,13 @@ def _outcome(case, obs):
         return "harness-error"
     if "skip" in obs:
         return "skip"
+    if case["kind"] == "rtb":
+        if obs.get("braise"):
+            return "build-raises"
+        if "nonstr" in obs:
+            return "text-not-a-str"
+        r = obs["r1"]
+        return r["k"] if r["k"] != "ok" else ("same" if r["o"] == obs["o_in"] and obs["same12"] else "changed")
     if case["kind"] == "impl":
         return obs["detail"] if case["what"] in ("deep", "dtd-only", "av-unmodelled", "av-root-xs") else ("refused" if obs["ok"] else "ACCEPTED")
     r = obs["r1"] if case["kind"] == "rt" else obs["r"]
@@ -1754,6 +2302,8 @@ def _outcome(case, obs):
 
 
 def nontrivial(case, obs):
+    if case["kind"] == "lite":
+        return ("lite", case["cls"], tuple(case["name"]), case["how"], obs.get("ok"))
     name = tab().classes[case["c"]].name
     out = _outcome(case, obs)
     if case["kind"] == "impl":
@@ -1763,6 +2313,10 @@ def nontrivial(case, obs):
         return ("impl", name, case["what"], out)
     if "error" in obs or "skip" in obs:
         return None
+    if case["kind"] == "rtb":
+        rc = case["recipe"]
+        return ("rtb", name, out, rc["text"][0], "ext" if rc["ext"] and rc["ext"] != "empty" else str(rc["ext"]),
+                tuple(a[0][1] for a in rc["arg"] or ()), tuple((op[0], op[1][0] if op[0] == "text" else "") for op in rc["ops"]))
     if case["kind"] == "rt":
         feats = sorted(_obj_feats(obs["o_in"]))
         if case["mode"] == "min" and not feats:
@@ -1787,17 +2341,26 @@ def _av_unmodelled(tree):
 
 def histogram(cases, observed):
     if _TABLE_ERROR is not None:
-        return {"table_error": _TABLE_ERROR}
+        return {"table_error": _TABLE_ERROR, "table_free_battery": {
+            "cases": len(cases), "failing": sum(1 for o in observed if o.get("ok") is not True),
+            "relative_names": sum(1 for c in cases if c.get("relative"))}}
     t = tab()
+    keep = [j for j, c in enumerate(cases) if c["kind"] != "lite"]      # (a replayed table-free case)
+    cases, observed = [cases[j] for j in keep], [observed[j] for j in keep]
     h = {"by_kind": {}, "by_module": {}, "outcome": {}, "features": {}, "classes_covered": 0, "impl": {},
-         "entity_forms": {}, "doc_forms": {}, "alike_names": {}}
+         "entity_forms": {}, "doc_forms": {}, "alike_names": {}, "recipes": {}, "live_names": {}}
     seen = set()
     for c, o in zip(cases, observed):
         kind = c["kind"] + (":" + c["mode"] if c["kind"] == "rt" else (":" + c.get("root", "") if c["kind"] == "doc" else ""))
+        if c["kind"] == "rtb":
+            kind = "rtb:" + c["why"]
+            key = "%s -> %s" % (c["why"], _outcome(c, o))
+            h["recipes"][key] = h["recipes"].get(key, 0) + 1
         if c["kind"] == "doc" and "alike" in c:
-            kind = "doc:alike"
-        for a in c.get("alike", ()):        # look-alike names: 'attr|elem namespace-variant/local-variant'
-            h["alike_names"][a] = h["alike_names"].get(a, 0) + 1
+            kind = "doc:live" if c.get("live") else "doc:alike"
+        for a in c.get("alike", ()):        # look-alike names: 'attr|elem namespace-variant/local-variant'; live: 'attr|elem kind'
+            hk = "live_names" if (c.get("live") or c.get("mode") == "live") else "alike_names"
+            h[hk][a] = h[hk].get(a, 0) + 1
         h["by_kind"][kind] = h["by_kind"].get(kind, 0) + 1
         mod = t.classes[c["c"]].name.rsplit(".", 1)[0]
         h["by_module"][mod] = h["by_module"].get(mod, 0) + 1
@@ -1813,9 +2376,9 @@ def histogram(cases, observed):
         if c["kind"] == "doc" and "form" in o:
             h["doc_forms"][o["form"]] = h["doc_forms"].get(o["form"], 0) + 1
         h["outcome"][out] = h["outcome"].get(out, 0) + 1
-        if "error" in o or "skip" in o:
+        if "error" in o or "skip" in o or o.get("braise") or "nonstr" in o:
             continue
-        feats = _obj_feats(o["o_in"]) if c["kind"] == "rt" else _tree_feats(c["tree"])
+        feats = _obj_feats(o["o_in"]) if c["kind"] in ("rt", "rtb") else _tree_feats(c["tree"])
         for f in feats:
             h["features"][f] = h["features"].get(f, 0) + 1
     h["documents_with_value_conversion_not_restated_by_model"] = sum(
